@@ -41,7 +41,8 @@ EXPLANATION = (
     'must be exact, not a dominating maximum (L9). The loops of the strict '
     'repairs cover every pair of adjacent vertices (A5).'
     ' Parallel statements for paired roles vary consistently (CP1), and a constraint tuple is only looked up among tuples (T4 membership).'
-    ' Nothing that is used later is computed from a value before the statement that clips that value (X5, self-clip order).')
+    ' Nothing that is used later is computed from a value before the statement that clips that value (X5, self-clip order).'
+    ' A value that is set before a loop, re-assigned in every iteration and used afterwards is read by the loop (X11, carried values).')
 ASSUMPTIONS = ['tf.maximum/minimum/reduce_max/reduce_min semantics',
                'configurations rejected by verify_hyperparameters do not occur']
 
@@ -88,6 +89,9 @@ def run(prog, res):
   from ..rules import guards as _gsc
   _gsc.check_self_clip_order(prog, res, [f for m in ['lattice_lib'] for f in prog.module(m).all_functions()])
   res.floor('X5', 4)
+  from ..rules import staleloop as _slc
+  _slc.check_carried_values(prog, res, [f for f in prog.all_functions()])
+  res.floor('X11', 8)
   from ..rules import hashkeys
   for q in ('lattice_lib.project_by_dykstra', 'lattice_lib._approximately_project_trapezoid'):
     hashkeys.check_function(prog, res, prog.function(q))
